@@ -222,9 +222,10 @@ def configs(tier):
         out.append({'name': 'pb-n%d' % n, 'task': 'plackett_burman', 'args': {'n': n}, 'weight': n, 'engine': ve})
     for n in ((3, 4, 5) if Q else (3, 4, 5, 6, 7)):
         out.append({'name': 'bb-n%d' % n, 'task': 'box_behnken', 'args': {'n': n}, 'weight': n ** 3, 'engine': ve})
-    g = [([3, 4], 2), ([2, 3, 4], 2), ([3, 3, 3], 3), ([4, 4], 2), ([3, 4], 3)]
+    g = [([3, 4], 2), ([2, 3, 4], 2), ([3, 3, 3], 3), ([4, 4], 2), ([3, 4], 3),
+         ([2, 3], 3), ([2, 4, 5], 3)]     # reduction larger than the level count of a factor (empty partitions)
     if not Q:
-        g += [([3, 4, 6], 2), ([3, 4, 6], 3), ([4, 4, 4], 4), ([5, 5], 2), ([3, 3, 3, 3], 3), ([4, 5], 4)]
+        g += [([3, 4, 6], 2), ([3, 4, 6], 3), ([4, 4, 4], 4), ([5, 5], 2), ([3, 3, 3, 3], 3), ([4, 5], 4), ([3, 2, 6], 4), ([2, 5], 4), ([2, 2, 3], 3)]
     for levels, red in g:
         out.append({'name': 'gsd-%s-r%d' % ('x'.join(map(str, levels)), red), 'task': 'gsd', 'args': {'levels': levels, 'reduction': red},
                     'weight': math.prod(levels), 'engine': ve})
